@@ -84,8 +84,19 @@ def run_rules(ctx, chk):
         stores = [e for e in w.evs[i] if e.kind == 'gstore']
         if len(stores) != 2:
             continue
-        v1 = arith.eval_int(stores[0].value, env)
-        v2 = arith.eval_int(stores[1].value, env)
+        # what the generation word holds after each write: the operand for a plain store / swap, the read-modify-write
+        # result for the fetch_* family (fetch_max(v) leaves max(old, v), fetch_or(v) old | v, ...), `old` being what the
+        # word held before (the start value, then the first write's result: write() is the only writer, C11.P5)
+        def after(op, old, a):
+            if a is None or old is None:
+                return None
+            f = {'store': lambda: a, 'swap': lambda: a, 'fetch_max': lambda: max(old, a), 'fetch_min': lambda: min(old, a),
+                 'fetch_or': lambda: old | a, 'fetch_and': lambda: old & a, 'fetch_xor': lambda: old ^ a,
+                 'fetch_add': lambda: (old + a) & 0xffff, 'fetch_sub': lambda: (old - a) & 0xffff,
+                 'fetch_nand': lambda: ~(old & a) & 0xffff}.get(op)
+            return f() if f else None
+        v1 = after(stores[0].op, g, arith.eval_int(stores[0].value, env))
+        v2 = after(stores[1].op, v1, arith.eval_int(stores[1].value, env))
         if v1 is None or v2 is None:
             bad.setdefault('uneval', (g, 'stored value not evaluable: %s / %s' % (fmt(stores[0].value)[:60], fmt(stores[1].value)[:60])))
             continue
